@@ -46,7 +46,7 @@ def family_soft_abstract(tier, seed, n=None):
 
 def family_soft_struct(tier, seed, n=None):
     out = []
-    n = n or (40 if tier == "quick" else 600)
+    n = n or (44 if tier == "quick" else 660)
     for t in range(n):
         core = t < n // 2
         rnd = random.Random((515 if core else 7000 + seed) * 100003 + t)
@@ -56,7 +56,8 @@ def family_soft_struct(tier, seed, n=None):
 
         def atom():
             return rel_atom(rnd, names, lits=(0, 1, 2, 3))
-        kind = ["pair", "triple", "guard_if", "guard_imp", "joint", "two_blocks", "sub", "guard_deep", "dyn_soft", "soft_vs_in"][t % 10]
+        kind = ["pair", "triple", "guard_if", "guard_imp", "joint", "two_blocks", "sub", "guard_deep", "dyn_soft", "soft_vs_in",
+                "objlist_soft"][t % 11]
         blocks_extra = []
         body = [E(atom())]
         if kind == "pair":
@@ -98,6 +99,24 @@ def family_soft_struct(tier, seed, n=None):
             body += [SOFT(atom()), SOFT(atom())]
         world = one_class_world(fields, body, extra_blocks=blocks_extra)
         ops = [{"op": "construct", "o": "o1"}]
+        if kind == "objlist_soft":
+            # class-level softs INSIDE the elements of an object list against inline softs of the call, call after call on the
+            # same object: the inline one wins every time
+            v0 = rnd.randrange(4)
+            sub = {"base": "", "fields": [fld("x", 2, False)],
+                   "blocks": [{"name": "sc", "dynamic": False, "body": [SOFT(B("eq", F("x"), lit(v0)))]}]}
+            top = {"base": "", "fields": [fld("a", 2, False), {"name": "ol", "kind": "objlist", "cls": "Sub", "n": 2, "rand": True},
+                                          {"name": "s", "kind": "obj", "cls": "Sub", "rand": True}],
+                   "blocks": [{"name": "c1", "dynamic": False, "body": [E(B("le", F("a"), lit(3)))]}]}
+            world = {"classes": {"Sub": sub, "A": top}, "population": [{"id": "o1", "cls": "A"}]}
+            for rep in range(4):
+                v1, v2 = (v0 + 1 + rep) % 4, (v0 + 2) % 4
+                ops.append({"op": "call", "call": wcall([SOFT(B("eq", F("ol[0].x"), lit(v1))), SOFT(B("eq", F("ol[1].x"), lit(v2))),
+                                                        SOFT(B("ne", F("s.x"), lit(v0)))])})
+                if rep % 2 == 1:
+                    ops.append({"op": "call", "call": mcall()})
+            out.append({"id": "soft/%s/%s/%d" % (kind, "core" if core else "s%d" % seed, t), "world": world, "ops": ops, "tags": []})
+            continue
         if kind == "guard_deep":
             for combo in range(8):
                 for j, g in enumerate(("g1", "g2", "g3")):
